@@ -62,7 +62,11 @@ def check_contents(oc, c, gradp, reactions, floor):
     return None
 
 
-def run_case(seed):
+def run_big(seed):
+    return run_case(seed, big=True)
+
+
+def run_case(seed, big=False):
     from amr_kitchen.chk2plt import chk2plt
     rng = random.Random(seed)
     model = core.W['model']
@@ -72,7 +76,9 @@ def run_case(seed):
     def count(k):
         dist[k] = dist.get(k, 0) + 1
 
-    c = genchk.gen_checkpoint(rng)
+    c = genchk.gen_checkpoint(rng, big=big)
+    if big:
+        count('case=state FAB above 4 MiB (32x32x24 cells, 3 ghost cells, 9 species)')
     root = core.scratch_dir(f"c17_{seed}")
     os.makedirs(root)
     chkdir = os.path.join(root, 'chk00005')
@@ -87,7 +93,7 @@ def run_case(seed):
     for k in range(2):
         gradp = rng.random() < 0.6
         reactions = rng.random() < 0.5
-        floor = rng.random() < 0.5
+        floor = rng.random() < 0.5 or (big and k == 0)
         src = rng.choice(['list', 'reference'])
         count(f"gradp={gradp}")
         count(f"reactions={reactions}")
@@ -137,7 +143,7 @@ def run_case(seed):
             continue
         if not out['samples']:
             out['samples'].append(dict(desc, output_fields=genchk.expected_fields(c, gradp, reactions)))
-        d = model_compare(model, c, gradp, reactions, floor, iimg)
+        d = None if big else model_compare(model, c, gradp, reactions, floor, iimg)
         if d:
             out['disagreements'].append(dict(desc, kind='model-vs-impl', what=d,
                                              correspondence='Writers.Chk2plt.convert_level vs chk2plt.convert'))
@@ -199,6 +205,8 @@ def run(tier, seed):
     cases = [seed * 100000 + 17000 + i for i in range(ncases)]
     for r in core.run_cases(run_case, core.with_corpus(PID, cases)):
         rep.merge(r)
+    for r in core.run_cases(run_big, [seed * 100000 + 17900 + i for i in range(1 if tier == 'quick' else 4)]):
+        rep.merge(r)
     rep.obligation('correspondence: Writers.Chk2plt.convert_level (binary files byte for byte, (file, offset) table) = output of chk2plt',
                    not any(v[0].get('kind') == 'model-vs-impl' for v in rep.violations))
     return rep.finish(
@@ -217,7 +225,7 @@ def run(tier, seed):
 
 def replay(doc):
     core.worker_init(core.REPO, quiet=False)
-    r = run_case(doc['seed'])
+    r = run_case(doc['seed'], big='big' in str(doc.get('meta', {}).get('case', '')))
     bad = r['violations'] + r['disagreements']
     for v in bad:
         print('REPLAY:', v.get('what'))
